@@ -56,7 +56,7 @@ TOL_FREE = 1e-4
 
 
 def plan(tier, seed):
-    n = 112 if tier == "quick" else 1200
+    n = 112 if tier == "quick" else 1000
     rng = np.random.default_rng([int(seed), 5, 777])
     specs = []
     for i in range(n):
